@@ -5,7 +5,7 @@ use crate::common::*;
 use crate::conv::*;
 use rayon::prelude::*;
 use refmodel::cal::Cycle;
-use refmodel::rule::{RuleSpec, Timeline};
+use refmodel::rule::{Day, RuleSpec, Timeline};
 use refmodel::tzif::{self, Block};
 use refmodel::tzstr::{recognise, trim_ascii_ws, Tz};
 use serde_json::{json, Value};
@@ -80,6 +80,9 @@ pub fn footer_file(version: u8, footer: &[u8]) -> Vec<u8> {
 /// what the model expects the decoded rule to be
 #[derive(Debug, PartialEq)]
 enum Expect {
+    /// the string denotes a rule inside the constructor's windows whose start/end order never flips (rule model, 402 years),
+    /// yet AlternateTime::new refuses it: whatever the decoder answers, the description was not decoded to the rule it denotes
+    RefusedConsistentRule,
     Reject,
     NoRule,
     Rule(TransitionRule),
@@ -99,12 +102,49 @@ fn expect_rule(tz: &Tz) -> Expect {
                 (Ok(s), Ok(d)) => match AlternateTime::new(s, d, rule_day(*start), *start_time as i32, rule_day(*end), *end_time as i32) {
                     // the constructor is C11's subject; here it is a sub-oracle (cross-checked against the model on a subset)
                     Ok(a) => Expect::Rule(TransitionRule::Alternate(a)),
-                    Err(_) => Expect::Reject,
+                    Err(_) => {
+                        // a refusal by the sub-oracle is believed only if the rule model agrees that the rule is outside the
+                        // constructor's windows or flips its start/end order (otherwise a well-formed description that denotes a
+                        // consistent rule would be "expected" to be rejected just because the implementation rejects it)
+                        let spec = RuleSpec { std_off: *std_utoff, dst_off: *dst_utoff, start: *start, start_time: *start_time, end: *end, end_time: *end_time };
+                        if model_accepts(&spec) {
+                            Expect::RefusedConsistentRule
+                        } else {
+                            Expect::Reject
+                        }
+                    }
                 },
                 _ => Expect::Reject,
             }
         }
     }
+}
+
+thread_local! {
+    static CONSISTENCY: std::cell::RefCell<(Option<Cycle>, std::collections::HashMap<(Day, Day, i64), bool>)> = std::cell::RefCell::new((None, std::collections::HashMap::new()));
+}
+
+/// C11's criterion by the rule model: windows, and the brute-force "order never flips" over 402 years (memoised per thread by
+/// day pair and the one time difference the order depends on)
+fn model_accepts(spec: &RuleSpec) -> bool {
+    let off_ok = |o: i64| o > -25 * 3600 && o < 26 * 3600;
+    let time_ok = |x: i64| x > -7 * 86400 && x < 7 * 86400;
+    if !off_ok(spec.std_off) || !off_ok(spec.dst_off) || !time_ok(spec.start_time) || !time_ok(spec.end_time) {
+        return false;
+    }
+    let d = (spec.start_time - spec.std_off) - (spec.end_time - spec.dst_off);
+    CONSISTENCY.with(|c| {
+        let mut c = c.borrow_mut();
+        if c.0.is_none() {
+            c.0 = Some(Cycle::build());
+        }
+        if let Some(&v) = c.1.get(&(spec.start, spec.end, d)) {
+            return v;
+        }
+        let v = Timeline::build(c.0.as_ref().unwrap(), spec, 2000, 402).no_flip();
+        c.1.insert((spec.start, spec.end, d), v);
+        v
+    })
 }
 
 /// model of the three decoding paths
@@ -154,7 +194,7 @@ fn run_impl(s: &[u8], mode: Mode) -> Result<Result<TimeZone, String>, String> {
 
 fn expected_zone(e: &Expect, mode: Mode) -> Option<TimeZone> {
     match (e, mode) {
-        (Expect::Reject, _) => None,
+        (Expect::Reject, _) | (Expect::RefusedConsistentRule, _) => None,
         (Expect::NoRule, _) => TimeZone::new(vec![], vec![LocalTimeType::new(0, false, Some(b"UTC")).unwrap()], vec![], None).ok(),
         (Expect::Rule(r), Mode::Settings) => {
             let types = match r {
@@ -182,6 +222,10 @@ pub fn check_string(cyc: &Cycle, s: &[u8], mode: Mode, rec: &Recorder, sweep: &s
             return;
         }
     };
+    if exp == Expect::RefusedConsistentRule {
+        rec.violation(sweep, case(), json!("a well-formed description of a rule whose start/end order never flips (rule model, 402 years) is decoded to that rule"), json!(format!("AlternateTime::new refuses the rule; decoder: {:?}", got.as_ref().map(|z| z.as_ref().extra_rule().clone()))));
+        return;
+    }
     let ez = expected_zone(&exp, mode);
     match (&ez, &got) {
         (None, Err(_)) => {}
@@ -344,6 +388,32 @@ fn sweep_sentences(cyc: &Cycle, rec: &Recorder, thorough: bool) -> Tally {
                 for t in &trailing {
                     list.push(format!("{p},{d1}{t1},M11.1.0{t}"));
                     list.push(format!("{p},M3.2.0,{d1}{t1}{t}"));
+                }
+            }
+        }
+    }
+    // (c) rule days close to each other in the calendar x day times up to +-167 h: whether such a rule is consistent is decided by
+    // the day times (C11's territory, judged here through the rule model: a refusal must be justified by it)
+    {
+        let mut close: Vec<(String, String)> = vec![];
+        for w1 in 1..=5 {
+            for w2 in 1..=5 {
+                for d1 in [0, 1, 6] {
+                    for d2 in [0, 1, 6] {
+                        close.push((format!("M3.{w1}.{d1}"), format!("M3.{w2}.{d2}")));
+                    }
+                }
+            }
+        }
+        for (a, b) in [("J59", "J60"), ("J60", "J61"), ("59", "60"), ("J60", "60"), ("M2.5.0", "J60"), ("M2.4.3", "59"), ("M3.1.0", "J60"), ("J365", "0"), ("365", "J1"), ("M12.5.6", "M1.1.0")] {
+            close.push((a.into(), b.into()));
+            close.push((b.into(), a.into()));
+        }
+        let ext = ["", "/0", "/24", "/-24", "/48", "/-48", "/100", "/-100", "/167", "/-167", "/-1", "/25", "/72", "/-72"];
+        for (a, b) in &close {
+            for t1 in &ext {
+                for t2 in &ext {
+                    list.push(format!("AAA0BBB,{a}{t1},{b}{t2}"));
                 }
             }
         }
